@@ -41,14 +41,21 @@ def apply_variant(v, repo, scratch):
         pr = subprocess.run(["patch", "-p1", "-s", "-d", scratch, "-i", pf], capture_output=True, text=True)
         if pr.returncode != 0:
             return f"stale: patch {v['patch']} does not apply: {pr.stdout[:200]}"
-    for rel, old, new in v.get("edits", []):
+    for ed in v.get("edits", []):
+        rel, old, new = ed[:3]
+        every = len(ed) > 3 and ed[3] == "all"  # replace every occurrence (renames)
         path = os.path.join(scratch, "src", "resonaate", rel)
         with open(path) as fh:
             s = fh.read()
-        if s.count(old) != 1:
+        if (s.count(old) < 1) if every else (s.count(old) != 1):
             return f"stale: anchor text occurs {s.count(old)} times in {rel}: {old[:60]!r}"
         with open(path, "w") as fh:
             fh.write(s.replace(old, new))
+    for tx in v.get("transforms") or []:
+        # whole-package behaviour-preserving transformations (tools/rename_locals.py, tools/flip_comparisons.py)
+        pr = subprocess.run(["/venv/bin/python", "-W", "ignore", os.path.join(VERIF, "tools", tx + ".py"), scratch], capture_output=True, text=True)
+        if pr.returncode != 0:
+            return f"stale: transform {tx} failed: {pr.stderr[-200:]}"
     # must still compile
     for rel in {e[0] for e in v.get("edits", [])}:
         path = os.path.join(scratch, "src", "resonaate", rel)
